@@ -2,6 +2,7 @@ package main
 
 import (
 	"fmt"
+	"strings"
 	"go/ast"
 	"go/token"
 	"go/types"
@@ -264,6 +265,7 @@ func (x *Exec) assign(lhs ast.Expr, v Val, st *State) {
 		}
 		if x.heapified[o] {
 			hn, h := x.ptrHeapOf(st, ty)
+			x.recordWrite(st, hn, st.vars[o], nil, nil, nil, l)
 			st.heaps[hn] = Store(h, st.vars[o], t)
 			return
 		}
@@ -305,6 +307,7 @@ func (x *Exec) assign(lhs ast.Expr, v Val, st *State) {
 		}
 		x.safe(st, "nil", Not(Eq(p.T, IntLit(0))), l)
 		hn, h := x.ptrHeapOf(st, p.Ty.Elem)
+		x.recordWrite(st, hn, p.T, nil, nil, nil, l)
 		st.heaps[hn] = Store(h, p.T, x.coerceTo(v, p.Ty.Elem))
 	default:
 		x.unsupported(lhs, "unsupported assignment target %T", lhs)
@@ -314,6 +317,7 @@ func (x *Exec) assign(lhs ast.Expr, v Val, st *State) {
 func (x *Exec) storeElem(st *State, base Val, idx, v *Term) {
 	hn, h := x.elemHeapOf(st, base.Ty.Elem)
 	reg := slReg(base.T)
+	x.recordWrite(st, hn, reg, nil, nil, nil, nil)
 	st.heaps[hn] = Store(h, reg, Store(st.sel(h, reg), Add(slOff(base.T), idx), v))
 }
 
@@ -328,6 +332,7 @@ func (x *Exec) assignField(baseExpr ast.Expr, path []int, v Val, st *State, n as
 		nv := x.updatePath(st, old, path, v, n)
 		// re-read heap (updatePath may have touched it through nested pointers)
 		_, h = x.ptrHeapOf(st, base.Ty.Elem)
+		x.recordWrite(st, hn, base.T, nv, old.T, base.Ty.Elem, n)
 		st.heaps[hn] = Store(h, base.T, nv)
 		return
 	}
@@ -349,6 +354,7 @@ func (x *Exec) updatePath(st *State, base Val, path []int, v Val, n ast.Node) *T
 		hn, h := x.ptrHeapOf(st, inner.Ty.Elem)
 		old := Val{T: st.sel(h, inner.T), Ty: inner.Ty.Elem}
 		nv := x.updatePath(st, old, path[1:], v, n)
+		x.recordWrite(st, hn, inner.T, nv, old.T, inner.Ty.Elem, n)
 		st.heaps[hn] = Store(h, inner.T, nv)
 		return base.T
 	}
@@ -613,14 +619,15 @@ func (x *Exec) forStmt(s *ast.ForStmt, st *State, label string) outcome {
 	bodyPos := s.Body.Lbrace
 	// establish
 	env := x.invEnv(st, bodyPos, nil)
-	for i, inv := range lc.Invs {
+	invs := x.usableInvs(lc, env, ord)
+	for i, inv := range invs {
 		x.oblige(st, "loop", fmt.Sprintf("%d:init:%s", ord, invLabel(inv, i)), env.evalBool(inv.E), s.Pos(), inv.Src)
 	}
 	preLoop := st.clone()
 	// arbitrary iteration
 	x.havocLoop(st, lc, ord, bodyPos, s.Cond, s.Body, s.Post)
 	env = x.invEnv(st, bodyPos, nil)
-	for _, inv := range lc.Invs {
+	for _, inv := range invs {
 		st.assume(env.evalBool(inv.E))
 	}
 	head := st.clone()
@@ -632,6 +639,7 @@ func (x *Exec) forStmt(s *ast.ForStmt, st *State, label string) outcome {
 	exitSt.assume(Not(cond))
 	bodySt := st
 	bodySt.assume(cond)
+	pop := x.pushLoopScope(lc, ord, preLoop, bodyPos)
 	bo := x.block(s.Body.List, bodySt)
 	var out outcome
 	ends := []*State{}
@@ -658,17 +666,48 @@ func (x *Exec) forStmt(s *ast.ForStmt, st *State, label string) outcome {
 			end = o.normal
 		}
 		env := x.invEnv(end, bodyPos, nil)
-		for i, inv := range lc.Invs {
+		for i, inv := range invs {
 			x.oblige(end, "loop", fmt.Sprintf("%d:pres:%s", ord, invLabel(inv, i)), env.evalBool(inv.E), s.Pos(), inv.Src)
 		}
-		x.checkLoopModifies(lc, ord, head, end, preLoop, bodyPos, s.Pos())
 	}
+	pop()
+	_ = head
 	if s.Cond == nil && len(exits) == 1 {
 		exits = nil // for {} without break never exits normally
 	} else if s.Cond == nil {
 		exits = exits[1:]
 	}
 	out.normal = x.mergeAll(exits)
+	return out
+}
+
+// usableInvs: invariants whose identifiers all resolve at this loop. An
+// invariant that mentions a variable no longer in scope (the code was
+// refactored) is dropped with a note: if the remaining obligations still
+// discharge nothing is lost, otherwise they fail and are reported.
+func (x *Exec) usableInvs(lc *LoopContract, env *CEnv, ord int) []Clause {
+	var out []Clause
+	for _, inv := range lc.Invs {
+		ok := true
+		func() {
+			defer func() {
+				if r := recover(); r != nil {
+					if s, isStr := r.(string); isStr && strings.Contains(s, "unknown identifier") {
+						ok = false
+						x.notes = append(x.notes, fmt.Sprintf("%s loop %d: invariant dropped, its anchor is lost (%s): %s", x.cur().key, ord, s, inv.Src))
+						return
+					}
+					panic(r)
+				}
+			}()
+			nob := len(x.obls)
+			env.evalBool(inv.E)
+			x.obls = x.obls[:nob]
+		}()
+		if ok {
+			out = append(out, inv)
+		}
+	}
 	return out
 }
 
@@ -696,13 +735,13 @@ func (x *Exec) checkLoopModifies(lc *LoopContract, ord int, head, end, pre *Stat
 		}
 		k := BoundVar{Name: x.freshBound("r"), Sort: SInt}
 		kt := mk(k.Name, SInt)
-		conds := []*Term{Le(IntLit(0), kt), Lt(kt, pre.alloc)}
+		conds := []*Term{Le(IntLit(0), kt), Lt(kt, x.entry0Alloc())}
 		for _, t := range targets {
 			if t.heap == hn {
 				conds = append(conds, Not(Eq(kt, t.key)))
 			}
 		}
-		goals = append(goals, Forall([]BoundVar{k}, Implies(And(conds...), Eq(Select(h1, kt), Select(h0, kt)))))
+		goals = append(goals, x.cellsEqual(hn, h1, h0, k, kt, And(conds...)))
 	}
 	x.oblige(end, "loop", fmt.Sprintf("%d:modifies", ord), And(goals...), pos, "loop modifies")
 }
@@ -788,7 +827,8 @@ func (x *Exec) rangeStmt(s *ast.RangeStmt, st *State, label string) outcome {
 	}
 	bindKV(st, false)
 	env := x.invEnv(st, bodyPos, extra(st))
-	for i, inv := range lc.Invs {
+	invs := x.usableInvs(lc, env, ord)
+	for i, inv := range invs {
 		x.oblige(st, "loop", fmt.Sprintf("%d:init:%s", ord, invLabel(inv, i)), env.evalBool(inv.E), s.Pos(), inv.Src)
 	}
 	preLoop := st.clone()
@@ -802,7 +842,7 @@ func (x *Exec) rangeStmt(s *ast.RangeStmt, st *State, label string) outcome {
 	}
 	bindKV(st, false)
 	env = x.invEnv(st, bodyPos, extra(st))
-	for _, inv := range lc.Invs {
+	for _, inv := range invs {
 		st.assume(env.evalBool(inv.E))
 	}
 	head := st.clone()
@@ -811,7 +851,9 @@ func (x *Exec) rangeStmt(s *ast.RangeStmt, st *State, label string) outcome {
 	bodySt := st
 	bodySt.assume(Lt(k, nName))
 	bindKV(bodySt, true)
+	pop := x.pushLoopScope(lc, ord, preLoop, bodyPos)
 	bo := x.block(s.Body.List, bodySt)
+	pop()
 	var out outcome
 	ends := []*State{}
 	if bo.normal != nil {
@@ -835,11 +877,11 @@ func (x *Exec) rangeStmt(s *ast.RangeStmt, st *State, label string) outcome {
 		end.vars[idxObj] = Add(k, IntLit(1))
 		bindKV(end, false)
 		env := x.invEnv(end, bodyPos, extra(end))
-		for i, inv := range lc.Invs {
+		for i, inv := range invs {
 			x.oblige(end, "loop", fmt.Sprintf("%d:pres:%s", ord, invLabel(inv, i)), env.evalBool(inv.E), s.Pos(), inv.Src)
 		}
-		x.checkLoopModifies(lc, ord, head, end, preLoop, bodyPos, s.Pos())
 	}
+	_ = head
 	out.normal = x.mergeAll(exits)
 	if out.normal != nil {
 		delete(out.normal.vars, idxObj)
